@@ -1843,10 +1843,16 @@ fn _unused(_: &Q) -> bool {
 
 pub fn run_c16(ctx: &Ctx) -> i32 {
     let mut acc = Acc::new();
-    run_c16a(ctx, &mut acc);
+    // diagnostic: C16_ONLY_FAULTS=1 runs the reciprocal-fault pass alone (not used by any registered command)
+    let only_faults = std::env::var("C16_ONLY_FAULTS").is_ok();
+    if !only_faults {
+        run_c16a(ctx, &mut acc);
+    }
     run_c16_faults(ctx, &mut acc);
-    let b = crate::sampler::c16b_pass(ctx);
-    acc.merge(b);
+    if !only_faults {
+        let b = crate::sampler::c16b_pass(ctx);
+        acc.merge(b);
+    }
     acc.violations
         .sort_by(|a, b| (a.key.as_str(), a.what.as_str()).cmp(&(b.key.as_str(), b.what.as_str())));
     let nontrivial = acc.hist.get("class").map(|h| h.iter().filter(|(k, _)| k.as_str() != "definite").map(|(_, v)| *v).sum::<u64>()).unwrap_or(0)
